@@ -258,7 +258,7 @@ func (g *gen) op(t *rapid.T) Op {
 	u := g.u
 	w := rapid.IntRange(0, 99).Draw(t, "what")
 	switch {
-	case len(g.hs) == 0 || (w < 8 && len(g.hs) < maxHandles):
+	case (len(g.hs) == 0 && len(g.lens) == 0) || (w >= 92 && len(g.hs) < maxHandles):
 		if len(g.lens) == 0 || (len(g.lens) < maxFiles && rapid.IntRange(0, 5).Draw(t, "create") == 0) {
 			mode := rapid.SampledFrom([]uint8{oWRITE, oRDWR}).Draw(t, "cmode")
 			g.lens = append(g.lens, 0)
@@ -267,12 +267,12 @@ func (g *gen) op(t *rapid.T) Op {
 			return Op{Kind: "create", Mode: mode}
 		}
 		return g.openOp(t, false, false)
-	case w < 13:
+	case w >= 87 && len(g.hs) > 0:
 		hi := rapid.IntRange(0, len(g.hs)-1).Draw(t, "close")
 		g.hs = append(g.hs[:hi:hi], g.hs[hi+1:]...)
 		g.last = 0
 		return Op{Kind: "close", Handle: hi}
-	case w < 58: // reads
+	case w < 47: // reads
 		hi := g.pickHandle(t, false)
 		if hi < 0 {
 			if len(g.hs) >= maxHandles {
@@ -376,27 +376,29 @@ func genCase(t *rapid.T) *Case {
 		}
 	}
 	g := &gen{u: int64(nm) - iohdrsz, avoid: hx.IsKnown(FindingReadn)}
-	nf := rapid.IntRange(0, 4).Draw(t, "nfiles")
+	nf := rapid.IntRange(1, 4).Draw(t, "nfiles")
+	if rapid.IntRange(0, 19).Draw(t, "nofiles") == 19 {
+		nf = 0 // everything is created through the client
+	}
 	for i := 0; i < nf; i++ {
 		l := g.lenOf(t, "len")
 		c.Files = append(c.Files, FileSpec{Len: int(l), Seed: rapid.Uint64().Draw(t, "fseed")})
 		g.lens = append(g.lens, l)
 	}
 	// start with several handles open at once
-	nh := rapid.IntRange(0, 6).Draw(t, "nhandles")
-	for i := 0; i < nh && len(g.lens) > 0; i++ {
-		c.Ops = append(c.Ops, g.openOp(t, false, false))
+	if len(g.lens) > 0 {
+		c.Ops = rapid.SliceOfN(rapid.Custom(func(t *rapid.T) Op { return g.openOp(t, false, false) }), 0, 6).Draw(t, "initial_opens")
 	}
-	nops := rapid.IntRange(1, 70).Draw(t, "nops")
-	for i := 0; i < nops; i++ {
-		c.Ops = append(c.Ops, g.op(t))
-	}
+	// drawn as a rapid slice (with a stateful element generator) so that the
+	// shrinker can delete single operations
+	ops := rapid.SliceOfN(rapid.Custom(func(t *rapid.T) Op { return g.op(t) }), 1, 70).Draw(t, "ops")
+	c.Ops = append(c.Ops, ops...)
 	c.FinalChunk = uint32(clamp(int64(g.countOf(t, 0, 3*g.u)), 1, 3*g.u))
 	return c
 }
 
 func TestPropMachine(t *testing.T) {
-	hx.Check(t, "machine", hx.N(600, 6000), func(t *rapid.T) {
+	hx.Check(t, "machine", hx.N(600, 20000), func(t *rapid.T) {
 		c := genCase(t)
 		if err := try("machine", c); err != nil {
 			if isHarness(err) {
